@@ -218,3 +218,148 @@ Theorem C12_next_int_every_range_pinned_refuted :
   exists lo hi k, lo <= hi /\ 0 <= k < two53 /\ next_int_b64 lo hi k = ORaise EOverflow.
 Proof. exact next_int_every_range_refuted. Qed.
 Print Assumptions C12_next_int_every_range_pinned_refuted.
+
+(* ---------------------------------------------------------------------- *)
+(* The tie to the source TEXT.  Streams/Gen_Streams.v is regenerated on every
+   run by translator/py2gallina_streams.py from src/pydsol/core/streams.py of the
+   tree under test (Python `ast`, fail-closed: the bodies of
+   MersenneTwister.__init__ / next_bool / next_float / next_int / seed /
+   original_seed / set_seed / reset / save_state / restore_state over the abstract
+   generator), and Streams/GenAgree.v proves every generated definition equal to
+   the hand-written model function.  This section is compiled against the
+   regenerated file: the theorems above therefore speak about the current source
+   text.  A change of a method's meaning makes GenAgree.v fail to compile: the
+   check then searches for a failing input and reports the broken tie. *)
+From PV Require Import Streams.Gen_Streams Streams.GenAgree.
+Import MT C12Agree.
+
+Theorem C12_generated_model_is_the_proved_model :
+  (forall raw nint m, step raw nint m NextFloat = obs out_float (gen_MersenneTwister_next_float raw m)) /\
+  (forall raw nint m, step raw nint m NextBool = obs out_bool (gen_MersenneTwister_next_bool raw m)) /\
+  (forall raw m lo hi, step raw gen_nint m (NextInt lo hi) =
+                       obs out_int (gen_MersenneTwister_next_int raw m (BInt lo) (BInt hi))) /\
+  (forall lo hi k, 0 <= k < two53 -> gen_nint lo hi k = next_int_fixed lo hi k) /\
+  (forall raw nint m a b, a = BNotNumber \/ b = BNotNumber ->
+     step raw nint m NextIntIllTyped = obs out_int (gen_MersenneTwister_next_int raw m a b)) /\
+  (forall raw nint m, step raw nint m QSeed = obs out_seed (gen_MersenneTwister_seed m)) /\
+  (forall raw nint m, step raw nint m QOrig = obs out_seed (gen_MersenneTwister_original_seed m)) /\
+  (forall raw nint m z, step raw nint m (SetSeed z) = obs out_unit (gen_MersenneTwister_set_seed m z)) /\
+  (forall raw nint m, step raw nint m Reset = obs out_unit (gen_MersenneTwister_reset m)) /\
+  (forall raw nint m, step raw nint m Save = remember (gen_MersenneTwister_save_state m)) /\
+  (forall raw nint m k, step raw nint m (Restore k) =
+     match nth_error (saved m) k with
+     | Some g => obs out_unit (gen_MersenneTwister_restore_state m (StObj g))
+     | None => (m, ORaise EBadState)
+     end) /\
+  (forall raw nint m, step raw nint m RestoreGarbage = obs out_unit (gen_MersenneTwister_restore_state m StGarbage)) /\
+  (forall clock g0 m0 z, saved m0 = [] ->
+     gen_MersenneTwister___init__ clock g0 m0 (SeedInt z) = (fresh z, Ret tt) /\
+     gen_MersenneTwister___init__ clock g0 m0 SeedNone = (fresh clock, Ret tt) /\
+     gen_MersenneTwister___init__ clock g0 m0 SeedOther = (m0, Exc ETypeError)) /\
+  (forall raw ops st, gen_srun raw st ops = srun raw gen_nint st ops) /\
+  (forall raw, (forall s n, 0 <= raw s n < two53) ->
+     forall ops st, gen_srun raw st ops = srun raw next_int_fixed st ops).
+Proof. exact mt_generated_agree. Qed.
+Print Assumptions C12_generated_model_is_the_proved_model.
+
+(* the objects a history starts from are made by the generated constructor *)
+Definition gen_new (clock : Z) (g0 : gstate) (s : Z) : stream :=
+  fst (gen_MersenneTwister___init__ clock g0 (mkS g0 0 0 []) (SeedInt s)).
+
+Theorem C12_generated_constructor_makes_fresh_streams :
+  forall clock g0 seeds, map (gen_new clock g0) seeds = map fresh seeds.
+Proof.
+  intros clock g0 seeds. apply map_ext. intros s. unfold gen_new.
+  destruct (gen_MersenneTwister_init_eq clock g0 (mkS g0 0 0 []) s eq_refl) as [E _]. rewrite E. reflexivity.
+Qed.
+Print Assumptions C12_generated_constructor_makes_fresh_streams.
+
+(* C12_twin_streams_equal, for histories run by the generated methods on objects
+   made by the generated constructor: every generator, every interleaving *)
+Theorem C12_generated_twin_streams_equal :
+  forall (raw : Z -> nat -> Z) (clock : Z) (g0 : gstate)
+         (ops : list (nat * sop)) (seeds : list Z) (i j : nat) (s : Z),
+    nth_error seeds i = Some s -> nth_error seeds j = Some s ->
+    proj i ops = proj j ops -> local_only (proj i ops) = true ->
+    sel i ops (snd (gen_srun raw (map (gen_new clock g0) seeds) ops)) =
+    sel j ops (snd (gen_srun raw (map (gen_new clock g0) seeds) ops)).
+Proof.
+  intros raw clock g0 ops seeds i j s Hi Hj Hp Hl.
+  rewrite C12_generated_constructor_makes_fresh_streams, gen_srun_eq.
+  exact (C12_twin_streams_equal raw gen_nint ops seeds i j s Hi Hj Hp Hl).
+Qed.
+Print Assumptions C12_generated_twin_streams_equal.
+
+(* C12_reset_replays_current_seed, for the generated reset and generated histories *)
+Theorem C12_generated_reset_replays_current_seed :
+  forall (raw : Z -> nat -> Z) (m : stream) (ops : list sop),
+    replayable 0 ops = true ->
+    snd (gen_run raw (fst (gen_MersenneTwister_reset m)) ops) =
+    snd (gen_run raw (fresh (cur m)) ops).
+Proof.
+  intros raw m ops H. rewrite !gen_run_eq.
+  exact (C12_reset_replays_current_seed raw gen_nint m ops H).
+Qed.
+Print Assumptions C12_generated_reset_replays_current_seed.
+
+(* C12_restore_continues, for the generated save_state / restore_state *)
+Theorem C12_generated_restore_continues :
+  forall (raw : Z -> nat -> Z) (m : stream) (ops1 ds : list sop),
+    draws_only ds = true ->
+    let m1 := fst (gen_step raw m Save) in
+    let m2 := fst (gen_run raw m1 ops1) in
+    snd (gen_run raw (fst (gen_step raw m2 (Restore (nsaves ops1)))) ds) =
+    snd (gen_run raw m1 ds).
+Proof.
+  intros raw m ops1 ds H. cbv zeta. rewrite !gen_run_eq, !gen_step_eq.
+  exact (C12_restore_continues raw gen_nint m ops1 ds H).
+Qed.
+Print Assumptions C12_generated_restore_continues.
+
+(* C12_streams_independent, for generated histories *)
+Theorem C12_generated_streams_independent :
+  forall (raw : Z -> nat -> Z) (ops : list (nat * sop)) (st : list stream) (i : nat) (m : stream),
+    nth_error st i = Some m -> local_only (proj i ops) = true ->
+    sel i ops (snd (gen_srun raw st ops)) = snd (gen_run raw m (proj i ops)) /\
+    nth_error (fst (gen_srun raw st ops)) i = Some (fst (gen_run raw m (proj i ops))).
+Proof.
+  intros raw ops st i m Hm Hl. rewrite gen_srun_eq, gen_run_eq.
+  exact (C12_streams_independent raw gen_nint ops st i m Hm Hl).
+Qed.
+Print Assumptions C12_generated_streams_independent.
+
+(* the range theorems, for the integer-draw formula of the generated next_int and for
+   every generated history over a generator that keeps its contract *)
+Theorem C12_generated_next_int_in_range_every_range :
+  forall lo hi k : Z,
+    lo <= hi -> 0 <= k < two53 ->
+    exists r, gen_nint lo hi k = OInt r /\ lo <= r <= hi.
+Proof.
+  intros lo hi k Hr Hk. rewrite (gen_nint_eq lo hi k Hk).
+  exact (C12_next_int_in_range_every_range lo hi k Hr Hk).
+Qed.
+Print Assumptions C12_generated_next_int_in_range_every_range.
+
+Theorem C12_generated_int_draws_in_range_in_every_history :
+  forall (raw : Z -> nat -> Z),
+    (forall s n, 0 <= raw s n < two53) ->
+    forall (ops : list (nat * sop)) (st : list stream),
+      valid_ops (length st) ops ->
+      ints_answered ops (snd (gen_srun raw st ops)) /\
+      floats_in_unit ops (snd (gen_srun raw st ops)).
+Proof.
+  intros raw Hraw ops st Hv. rewrite (gen_srun_eq_model raw Hraw). split.
+  - exact (C12_int_draws_in_range_in_every_history raw Hraw ops st Hv).
+  - exact (C12_floats_in_unit_interval raw next_int_fixed Hraw ops st Hv).
+Qed.
+Print Assumptions C12_generated_int_draws_in_range_in_every_history.
+
+Example C12_generated_nonvacuous :
+  let raw := fun (s : Z) (n : nat) => (s * 1000003 + Z.of_nat n * 7919 + two53 - 1) mod two53 in
+  let ops := [(0%nat, NextInt 1 6); (1%nat, NextFloat); (0%nat, Save); (0%nat, NextInt 0 (2 ^ 70));
+              (1%nat, SetSeed 9); (0%nat, Restore 0); (0%nat, NextInt 0 (2 ^ 70)); (1%nat, Reset); (1%nat, NextBool)] in
+  snd (gen_srun raw (map (gen_new 0 (mkG 0 0)) [5; 5]) ops) =
+  snd (srun raw next_int_fixed (map fresh [5; 5]) ops) /\
+  nth 3 (snd (gen_srun raw (map (gen_new 0 (mkG 0 0)) [5; 5]) ops)) ONone = OInt 656399794176 /\
+  nth 6 (snd (gen_srun raw (map (gen_new 0 (mkG 0 0)) [5; 5]) ops)) ONone = OInt 656399794176.
+Proof. cbv zeta. vm_compute. repeat split. Qed.
